@@ -773,7 +773,13 @@ func c14NullElement(p *Program, r *Report) {
 			r.OKf("null-element", key, m.Pos(), "every success path stores the zero value")
 		}
 	}
-	// v2 writers: WriteShortBytes(x) must be dominated by the false edge of x == nil
+	v2ElementGuard(p, r, "null-element")
+}
+
+// v2ElementGuard: in the protocol-v2 writers WriteShortBytes(x) must be dominated by the false edge
+// of x == nil on the encoded element itself - exactly nil is refused (NULL cannot be expressed),
+// an empty element is written.
+func v2ElementGuard(p *Program, r *Report, rule string) {
 	for _, name := range []string{"writeCollection", "writeMap"} {
 		fnObj := p.LookupFunc("datacodec", name)
 		fn := p.SSA().FuncValue(fnObj)
@@ -816,9 +822,9 @@ func c14NullElement(p *Program, r *Report) {
 					}
 				}
 				if guarded {
-					r.OKf("null-element", key, c.Pos(), "the encoded element is tested against nil before the v2 writer")
+					r.OKf(rule, key, c.Pos(), "the encoded element is tested against nil before the v2 writer")
 				} else {
-					r.Fail("null-element", key, c.Pos(), "in the protocol-v2 branch the encoded element %s reaches WriteShortBytes without an `== nil` test on that very value: a NULL element is written as an empty one (or an empty element is refused)", describeVal(arg))
+					r.Fail(rule, key, c.Pos(), "in the protocol-v2 branch the encoded element %s reaches WriteShortBytes without an `== nil` test on that very value: a NULL element is written as an empty one (or an empty element is refused)", describeVal(arg))
 				}
 			}
 		}
